@@ -432,6 +432,12 @@ def run(tier, seed):
                 if not what.startswith("ok"):
                     ck.violation("lookup-imported-function", {"kind": "lookup-imported-function", "engine": eng},
                                  {"what": "experimental/table.LookupFunction(B, table 0, slot 0) where the slot holds B's imported function A.f1", "engines": a["engines"]})
+        if a["aux"] == "shared-table-sibling-instances":
+            for eng, what in a["engines"].items():
+                if not what.startswith("ok"):
+                    ck.violation("sibling-instances-shared-table", {"kind": "sibling-instances-shared-table", "engine": eng},
+                                 {"what": "one compiled module instantiated twice (i1, i2) importing T's table; each writes its own `get` (reads its own global) into slot 0; "
+                                          "i1.set(11); i2.set(22); calls through slot 0 by call_indirect (ind) and return_call_indirect (tail) from both instances", "engines": a["engines"]})
         if a["aux"] == "start-section-names-imported-host-function":
             for eng, what in a["engines"].items():
                 if not what.startswith("ok"):
